@@ -1,4 +1,4 @@
 From Coq Require Extraction ExtrOcamlBasic.
-From GV Require Import Sym.AsuDefs Fft.Place.
+From GV Require Import Sym.AsuDefs Fft.Place Fft.AsuLookup.
 Extraction Blacklist String List Nat.
-Extraction "fft.ml" f_phi_on_grid operations sg_table.
+Extraction "fft.ml" f_phi_on_grid operations sg_table asu_lookup asu_is_in row_asu.
